@@ -143,6 +143,7 @@ Definition dispose (e : nat) (s : state) : state :=
 
 Definition step (s : state) (o : op) : state :=
   if halted s then s else
+  let s := emit EvOp s in
   match o with
   | OWrite j v => if is_sig j then nfy j (updn j (fun n => set_sval n v) s) else set_err s
   | ONotify j => if is_sig j then nfy j s else set_err s
